@@ -34,8 +34,9 @@ WORLDS = {
     'discrete_0x2x3': ('DiscreteWorld', (0, 2, 3), (0, 1, 2)),
     'discrete_3x0x2': ('DiscreteWorld', (3, 0, 2), (1, 0, 1)),
     'space_2.5x0x1': ('SpaceWorld', (2.5, 0, 1), (2.5, 0, 0.5)),
+    'space_0.5x2x0': ('SpaceWorld', (0.5, 2, 0), (0.25, 1, 0)),     # an extent strictly between 0 and 1
 }
-QUICK = ['plain', 'space_3x2x0', 'discrete_3x2x2', 'line_3', 'grid_3x2']
+QUICK = ['plain', 'space_3x2x0', 'discrete_3x2x2', 'line_3', 'grid_3x2', 'space_0.5x2x0']
 
 META = {
     'rule': 'BFS over add/remove histories per world kind to the fixpoint; in every state the complete fault menu '
